@@ -404,6 +404,7 @@ class Run:
             # the operation autoflushed: the same row oracle applies, and the snapshot moves on
             self.bump("probe:autoflush")
             self.txn_flushed = True
+            self.loaded_before_set.clear()
             now = self.probe()
             self.pre_pk = dict(self.pk_mem)
             if not (self.session.new or self.session.dirty or self.session.deleted):
@@ -788,6 +789,14 @@ class Run:
         attr = self.U["scal"][e["cls"]][a2 % len(self.U["scal"][e["cls"]])]
         self.loaded_before_set.setdefault((e["label"], attr), OS.loaded(o, attr)[0] or OS.state_of(o) in ("transient", "pending"))
         val = a2 if attr == "val" else "%s%d" % (attr[0], a2)
+        if a2 % 11 == 7 and OS.state_of(o) == "persistent" and OS.loaded(o, attr)[0] and \
+                not self.m["inspect"](o).attrs[attr].history.has_changes():
+            # 'del obj.attr' of a loaded column attribute: the attribute reads None and the flush writes NULL
+            delattr(o, attr)
+            if getattr(o, attr) is not None:
+                self.V("C36", "deleted_attribute_has_value", "%s.%s reads %r after 'del'" % (e["cls"], attr, getattr(o, attr)))
+            self.bump("probe:scalar_attribute_deleted")
+            return "%d.%s del" % (e["label"], attr)
         setattr(o, attr, val)
         return "%d.%s" % (e["label"], attr)
 
@@ -2519,9 +2528,14 @@ class Run:
             # merge of a transient copy carrying plain values
             C = self.U["classes"]["M"]
             src = C(id=OS.pk_of(o), d={"m": a2}, l=[a2], s={a2}, pt=self.m["Point"](a2, a2))
+            cached = o.pt              # (the composite value is built - and cached - on first access)
             merged = sess.merge(src)
             if merged is not o:
                 self.V("C45", "merge_returned_other_instance", "merge() of a transient M copy returned a different object than the session's instance")
+            for an in ("d", "l", "s", "pt"):
+                if self.m_plain(an, getattr(merged, an)) != self.m_plain(an, getattr(src, an)):
+                    self.V("C45", "merged_state_differs", "after merge M #%s.%s is %r, the given object had %r"
+                           % (OS.pk_of(o), an, getattr(merged, an), getattr(src, an)))
             what = "merge_copy"
         else:
             if self.txn_flushed or self.sp_stack:
